@@ -37,4 +37,21 @@ NewCore(ty) ==
     [] ty = "mvreg"     -> [e |-> {}, clock |-> EmptyMap]
     [] ty = "orset"     -> [e |-> EmptyMap, clock |-> EmptyMap]
     [] ty = "ormap"     -> [e |-> EmptyMap, clock |-> EmptyMap, v |-> EmptyMap]
+
+\* "merging never shrinks the information already present": what a holds is still in a|b, in the order of
+\* information of the type (counts and clocks grow; an enabled flag stays enabled; the register does not go
+\* back; a dot of a survives unless b has seen it and does not have it any more, i.e. b removed it)
+MapLeq(m1, m2) == \A n \in DOMAIN m1 : m1[n] <= Get0(m2, n)
+DotsKept(ea, eb, cb, eab) ==
+  \A x \in DOMAIN ea : \A d \in ea[x] : d \in GetS(eab, x) \/ (d.c <= Get0(cb, d.n) /\ d \notin GetS(eb, x))
+Grows(ty, a, b, ab) ==
+  CASE ty = "gcounter"  -> MapLeq(a.s, ab.s)
+    [] ty = "pncounter" -> MapLeq(a.p, ab.p) /\ MapLeq(a.m, ab.m)
+    [] ty = "flag"      -> a.en => ab.en
+    [] ty = "lww"       -> ab.ts > a.ts \/ (ab.ts = a.ts /\ Rank(ab.n) >= Rank(a.n))
+    [] ty = "mvreg"     -> /\ MapLeq(a.clock, ab.clock)
+                           /\ \A d \in a.e : d \in ab.e \/ (d.c <= Get0(b.clock, d.n) /\ ~\E y \in b.e : y.n = d.n /\ y.c = d.c)
+    [] ty = "orset"     -> MapLeq(a.clock, ab.clock) /\ DotsKept(a.e, b.e, b.clock, ab.e)
+    [] ty = "ormap"     -> /\ MapLeq(a.clock, ab.clock) /\ DotsKept(a.e, b.e, b.clock, ab.e)
+                           /\ \A k \in (DOMAIN a.v) \cap (DOMAIN ab.v) : MapLeq(a.v[k], ab.v[k])
 =============================================================================
